@@ -1,0 +1,8 @@
+//go:build verif
+
+package pause
+
+// ResetForVerif replaces the package-level manager with a fresh one (one per harness scenario).
+func ResetForVerif() {
+	manager = &pauseManager{}
+}
